@@ -150,6 +150,8 @@ def contexts():
         ('match_case', 'match len(result) >= 0:\n    case True:\n{S2}\n    case _:\n        result.append(-6)'),
         ('nested_def_class', 'def outer_context():\n    class InnerContext:\n        def method(self):\n{S3}\n    return InnerContext().method()\nouter_context()'),
         ('def_in_if_in_for', 'for outer_loop in range(1):\n    if outer_loop == 0:\n        def nested_function():\n{S3}\n        nested_function()'),
+        ('def_in_except', 'try:\n    raise KeyError("k")\nexcept KeyError:\n    def handler_function(handler_argument=1):\n        if handler_argument:\n            handler_copy = [handler_argument, handler_argument, handler_argument, "a repeated literal", "a repeated literal", "a repeated literal"]\n{S2}\n    handler_function()'),
+        ('def_in_match_case', 'match len(result) >= 0:\n    case True:\n        def case_function(case_argument=2):\n            for case_item in (case_argument, case_argument):\n                case_copy = [case_argument, case_argument, case_argument, "another repeated literal", "another repeated literal", "another repeated literal"]\n{S3}\n        case_function()\n    case _:\n        result.append(-7)'),
         ('async_def', 'import asyncio\nasync def context_coroutine():\n{S1}\nasyncio.run(context_coroutine())'),
         ('lambda_default', 'def uses_default(parameter=lambda: None):\n{S1}\nuses_default()'),
     ]
@@ -169,14 +171,14 @@ def cases():
         for ctag, tmpl in ctxs:
             src = HEADER + render(tmpl, stmt) + FOOTER
             yield {'shape': 'trigger.%s.%s@%s' % (opt, tag, ctag), 'option': opt, 'near_miss': near, 'src': src}
-    fctx = [c for c in ctxs if c[0] in ('def', 'nested_def_class', 'def_in_if_in_for', 'async_def', 'lambda_default')]
+    fctx = [c for c in ctxs if c[0] in ('def', 'nested_def_class', 'def_in_if_in_for', 'def_in_except', 'def_in_match_case', 'async_def', 'lambda_default')]
     for opt, tag, stmt, near in RETURN_TRIGGERS:
         for ctag, tmpl in fctx:
             if 'yield' in stmt and ctag == 'async_def':
                 continue
             src = HEADER + render(tmpl, stmt) + FOOTER
             if 'yield' in stmt:
-                src = src.replace('context_function()\n', 'list(context_function())\n').replace('InnerContext().method()', 'list(InnerContext().method())').replace('        nested_function()', '        list(nested_function())').replace('uses_default()\n', 'list(uses_default())\n')
+                src = src.replace('context_function()\n', 'list(context_function())\n').replace('InnerContext().method()', 'list(InnerContext().method())').replace('        nested_function()', '        list(nested_function())').replace('uses_default()\n', 'list(uses_default())\n').replace('    handler_function()', '    list(handler_function())').replace('        case_function()', '        list(case_function())')
             yield {'shape': 'trigger.%s.%s@%s' % (opt, tag, ctag), 'option': opt, 'near_miss': near, 'src': src}
     # module level specials
     specials = [
